@@ -17,6 +17,37 @@ ID = "C18"
 TIE_MODULES = ["StathamModel.Tie"]
 ASSUMPTIONS = ["literal printing is CPython's repr of None/bool/int/finite float/str/list/dict (trusted)"]
 N_TREES = {"quick": 1200, "thorough": 40000}
+# strings that stress the printing of string literals: backslashes with both quote kinds, trailing backslash,
+# control characters, quotes only, non-ASCII, line separators
+HOSTILE = ["^[\"'](\\w+)[\"']$", "tail\\", "a\nb", "tab\there", "'", '"', "'\"", "\\d+\\.\\d*", "nul\x00", "é\u2028x", "r'raw'", "\\N{BULLET}", "%s {0} {name}"]
+USE_VALUES = [None, True, 0, 1, 2.5, "", "a", "abc", [], [1, "a"], {}, {"a": 1}, {"a": "x", "b": [1]}]
+
+
+def make_hostile(rng, dump):
+    """put a hostile string into one string-valued keyword somewhere in the tree"""
+    nodes = []
+
+    def walk(d):
+        if isinstance(d, dict):
+            if "cls" in d and isinstance(d.get("kw"), dict):
+                nodes.append(d)
+            for v in d.values():
+                walk(v)
+        elif isinstance(d, list):
+            for v in d:
+                walk(v)
+    walk(dump)
+    rng.shuffle(nodes)
+    for node in nodes:
+        kw = node["kw"]
+        if node["cls"] in ("String", "Element"):
+            kw[rng.choice(["pattern", "description", "format"] if node["cls"] == "String" else ["pattern", "description", "format"])] = rng.choice(HOSTILE)
+            return True
+        if node["cls"] in ("Integer", "Number", "Boolean", "Null", "Array"):
+            kw["description"] = rng.choice(HOSTILE)
+            return True
+    return False
+
 
 
 def namespace_for(el):
@@ -47,9 +78,9 @@ def expected_kwargs(el):
     return out
 
 
-def check_element(drv, el, dump, out, stats, what="element"):
+def check_element(drv, el, dump, out, stats, what="element", used=False):
     text = repr(el)
-    case = {"element": dump, "repr": text}
+    case = {"element": dump, "repr": text, "used_before": used}
     out.note_case({"element": dump}, len(text) > 20)
     try:
         real = pyast.canon_expr_text(text)
@@ -143,7 +174,9 @@ def run(ctx, scale=1.0):
     out = Outcome()
     out.rule = ("element trees built through the DSL from generated dumps (every element class, keyword subsets, JSON literals incl. falsy ones, "
                 "nested elements, tuple/single items, renamed and required properties, dependencies of both forms) and property wrappers "
-                "bound under a name; a case is one tree or wrapper; non-trivial = repr longer than 20 characters; distinct by SHA-256")
+                "bound under a name; a third of the trees carry a hostile string (backslashes with both quote kinds, trailing backslash, control "
+                "characters) in a pattern / description / format; half of the trees are used for validation before their repr is taken; "
+                "a case is one tree or wrapper; non-trivial = repr longer than 20 characters; distinct by SHA-256")
     stats = {}
     drv = core.Driver()
     try:
@@ -153,8 +186,15 @@ def run(ctx, scale=1.0):
             if dump["cls"] == "Object":
                 dump = dg.element(3)
             unique_class_names(dump)
+            if i % 3 == 1 and make_hostile(rng, dump):
+                stats["hostile-string"] = stats.get("hostile-string", 0) + 1
             el = dsl.build(dump)
-            check_element(drv, el, core.dump_elem(el), out, stats)
+            if i % 2 == 1:
+                # a used element: validation must leave nothing behind that the rebuilt element lacks
+                for v in rng.sample(USE_VALUES, 5) + [core.NP]:
+                    core.real_call(el, v)
+                stats["used-before-repr"] = stats.get("used-before-repr", 0) + 1
+            check_element(drv, el, core.dump_elem(el), out, stats, used=(i % 2 == 1))
             if i % 4 == 0:
                 check_property(drv, rng, dg, out, stats)
         # one element per class with each single keyword at a falsy non-default value
@@ -201,7 +241,10 @@ def _replay_case(case):
             if not (rebuilt.properties[p["name"]] == prop and holder == rebuilt):
                 out.failures.append({"case": case, "what": "rebuilt property differs", "finding": None})
         else:
-            check_element(drv, el, case["element"], out, stats)
+            if case.get("used_before"):
+                for v in USE_VALUES + [core.NP]:
+                    core.real_call(el, v)
+            check_element(drv, el, case["element"], out, stats, used=bool(case.get("used_before")))
     finally:
         drv.close()
     return out
